@@ -8,5 +8,6 @@ CONSTANTS
   UntouchedIfNoSite = FALSE
   WalkEverywhere = TRUE
   OnePin = TRUE
+  SiteIndependent = TRUE
   Tier = "neg"
 INVARIANTS Unchanged
